@@ -4,6 +4,7 @@ import (
 	"bytes"
 	"fmt"
 	"math/rand/v2"
+	"os"
 	"strings"
 	"testing"
 	"time"
@@ -49,7 +50,7 @@ func (a *adversary) sign(h *types.SignedHeader) {
 	h.Signature = sig
 }
 
-const numAdvHeaderKinds = 10
+const numAdvHeaderKinds = 12
 
 // header builds an adversarial header of the given kind aimed at block index bi.
 func (a *adversary) header(kind int64, bi int) (*types.SignedHeader, string) {
@@ -110,6 +111,23 @@ func (a *adversary) header(kind int64, bi int) (*types.SignedHeader, string) {
 	case 9:
 		name = "genuine-fields-garbage-signature"
 		h.Signature = bytes.Repeat([]byte{0x24}, 64)
+	case 10:
+		name = "self-consistent-header-of-another-proposer-same-height"
+		// a third party's own chain: its own address as proposer, its own key, correctly signed
+		h.ProposerAddress = types.KeyAddress(a.pub)
+		h.Signer = types.Signer{PubKey: a.pub, Address: types.KeyAddress(a.pub)}
+		a.sign(h)
+	case 11:
+		name = "self-consistent-header-of-another-proposer-next-height"
+		top := a.blocks[len(a.blocks)-1]
+		h = cloneHeader(top.Header)
+		h.BaseHeader.Height = top.H + 1
+		h.BaseHeader.Time = top.Header.BaseHeader.Time + 1e9
+		h.LastHeaderHash = top.Header.Hash()
+		h.DataHash = (&types.Data{}).DACommitment()
+		h.ProposerAddress = types.KeyAddress(a.pub)
+		h.Signer = types.Signer{PubKey: a.pub, Address: types.KeyAddress(a.pub)}
+		a.sign(h)
 	}
 	if bytes.Equal(h.Hash(), g.Header.Hash()) {
 		// same hash as the genuine header: the mark for this hash is legitimate once the proposer's own blob was
@@ -217,6 +235,9 @@ func lightAdmit(head *types.SignedHeader, raw []byte) bool {
 }
 
 func c03Run(t *testing.T, s *sim.Scn) *sim.Outcome {
+	if s.Cfg["whole"] == 1 {
+		return c03WholeRun(t, s)
+	}
 	o := sim.NewOutcome()
 	if p := sim.Bubble(t, func() { c03Body(t, s, o) }); p != nil {
 		o.Fail("C03/panic", "", -1, fmt.Sprint(p), "no panic")
@@ -506,6 +527,9 @@ done:
 }
 
 func c03Gen(r *rand.Rand, tier string) *sim.Scn {
+	if r.IntN(10) == 0 || os.Getenv("VERIF_C03_WHOLE_ONLY") != "" {
+		return c03WholeGen(r, tier)
+	}
 	s := &sim.Scn{Cfg: map[string]int64{}}
 	n := 2 + r.IntN(7)
 	for i := 0; i < n; i++ {
@@ -550,10 +574,10 @@ func TestC03(t *testing.T) {
 	sim.Main(t, &sim.Check{
 		ID:    "C03",
 		Level: "exploration",
-		Rule: "C02's world plus an adversary holding another key: 8 kinds of adversarial headers (mutated copies re-signed under the proposer's address, forged next height linking to the head, garbage/empty signatures, foreign chain id, field mutation keeping the genuine signature, own address naming the proposer, same-height replacement) and 4 kinds of adversarial signed data (forged under the proposer's address, without metadata, future height, matching a forged header), " +
-			"published on DA, put into the P2P header store the follower polls, and offered to the header-only admission pipeline (decode, Validate, go-header Verify); interleaved with genuine traffic, arbitrary delivery order, restarts. distinct = distinct scenario hash; non-trivial = at least one adversarial item published/offered and at least 2 deliveries",
-		Assumptions: []string{"the light node is modelled by the admission pipeline go-header applies to gossip, on real types (the real LightNode over mocknet is Engine N's configuration)", "a follower halted by junk P2P material is not judged (the no-halt clause names the DA layer); applying forged material is judged wherever it came from"},
-		Components:  map[string]string{"follower loops, caches, store": "real", "types.SignedHeader validation, go-header Verify": "real", "proposer chain": "real aggregator", "adversary": "harness (no access to the proposer's private key)", "DA": "stub (SimDA)", "P2P stores": "stub"},
+		Rule: "C02's world plus an adversary holding another key: 12 kinds of adversarial headers (a third party's fully self-consistent headers under its own address, mutated copies re-signed under the proposer's address, forged next height linking to the head, garbage/empty signatures, foreign chain id, field mutation keeping the genuine signature, own address naming the proposer, same-height replacement) and 4 kinds of adversarial signed data (forged under the proposer's address, without metadata, future height, matching a forged header), " +
+			"published on DA, put into the P2P header store the follower polls, and offered to the header-only admission pipeline (decode, Validate, go-header Verify); interleaved with genuine traffic, arbitrary delivery order, restarts. A tenth of the scenarios are whole-node attacks: real sequencer node, full node and LightNode over a libp2p mocknet and a raw gossipsub adversary publishing the forged headers (at the next height, past heights, the head), forged data and junk; the victims' P2P header stores are read back from disk and must hold the proposer's headers only. distinct = distinct scenario hash; non-trivial = at least one adversarial item published/offered and at least 2 deliveries",
+		Assumptions: []string{"Manager-level scenarios model the light node by the admission pipeline go-header applies to gossip, on real types; the whole-node scenarios run the real LightNode", "a follower halted by junk P2P material is not judged (the no-halt clause names the DA layer); applying forged material is judged wherever it came from"},
+		Components:  map[string]string{"follower loops, caches, store": "real", "types.SignedHeader validation, go-header Verify": "real", "proposer chain": "real aggregator", "adversary": "harness (no access to the proposer's private key)", "DA": "stub (SimDA)", "P2P stores": "stub (Manager-level scenarios)", "node.FullNode / node.LightNode, pkg/sync, pkg/p2p, gossipsub (whole-node scenarios)": "real over libp2p mocknet"},
 		Gen:         c03Gen,
 		Run:         c03Run,
 		QuickBudget: 30 * time.Second, ThoroughBudget: 12 * time.Minute,
